@@ -352,42 +352,55 @@ unsafe impl Hal for VHal {
     unsafe fn unshare(_paddr: PhysAddr, _buffer: NonNull<[u8]>, _direction: BufferDirection, _access_platform: bool) {}
 }
 
-/// a fresh driver (3 queues of 8, 8 posted receive buffers); returns it with the number of captures so far
-fn mk_socket() -> (VirtIOSocket<VHal, KTransport, RXB>, usize) {
-    log_reset();
-    unsafe { CAP.n = 0; CAP.ndma = 0; }
-    let t = KTransport::new(DeviceType::Socket);
-    let mut s = VirtIOSocket::<VHal, KTransport, RXB>::new(t).unwrap();
-    s.guest_cid = kani::any();
-    let n = unsafe { CAP.n };
-    assert!(n == QUEUE_SIZE, "C19: the receive queue is not fully posted");
-    (s, n)
+/// A driver object of which only the parts used by the transmit path exist: `transport`, `tx` (a real
+/// `VirtQueue` of 8 over the capturing HAL) and `guest_cid`.  `rx` and `event` are never touched by
+/// `send`/`connect`/... and are left uninitialised (building them with `VirtIOSocket::new` - 3 queues and
+/// 8 posted receive buffers - exceeds CBMC's capacity here: no verdict after 25 min).
+struct TxOnly(core::mem::MaybeUninit<VirtIOSocket<VHal, KTransport, RXB>>);
+impl TxOnly {
+    fn new() -> Self {
+        log_reset();
+        unsafe { CAP.n = 0; CAP.ndma = 0; }
+        let mut t = KTransport::new(DeviceType::Socket);
+        let tx = VirtQueue::<VHal, QUEUE_SIZE>::new(&mut t, TX_QUEUE_IDX, false, false, false).unwrap();
+        let mut m = core::mem::MaybeUninit::<VirtIOSocket<VHal, KTransport, RXB>>::uninit();
+        unsafe {
+            let p = m.as_mut_ptr();
+            core::ptr::addr_of_mut!((*p).transport).write(t);
+            core::ptr::addr_of_mut!((*p).tx).write(tx);
+            core::ptr::addr_of_mut!((*p).guest_cid).write(kani::any());
+        }
+        TxOnly(m)
+    }
+    fn sock(&mut self) -> &mut VirtIOSocket<VHal, KTransport, RXB> {
+        unsafe { &mut *self.0.as_mut_ptr() }
+    }
 }
 
-/// the model device completes the next transmit chain in advance: used ring of the tx queue
-/// (4th dma region: rx 0/1, tx 2/3, event 4/5) gets entry {id: token 0, len 0}, idx = 1
+/// the model device completes the next transmit chain in advance: the used ring of the tx queue
+/// (2nd dma region of the queue) gets entry {id: token 0, len 0}, idx = 1
 fn dev_precomplete_tx() {
     unsafe {
-        assert!(CAP.ndma == 6, "verif: unexpected dma layout");
-        let u = CAP.dma[3];
+        assert!(CAP.ndma == 2, "verif: unexpected dma layout");
+        let u = CAP.dma[1];
         *(u.add(4) as *mut u32) = 0;
         *(u.add(8) as *mut u32) = 0;
         *(u.add(2) as *mut u16) = 1;
     }
 }
 
-fn cap_is(i: usize, want: &[u8; 44]) -> bool {
-    let mut ok = unsafe { CAP.len[i] == 44 && CAP.dir[i] == 0 };
-    let mut k = 0;
-    while k < 44 {
-        ok = ok && unsafe { CAP.bytes[i][k] } == want[k];
-        k += 1;
+/// capture `i` is a 44-byte device-readable buffer holding exactly header `want` (compared field by field
+/// after parsing; the byte layout itself is covered by `c17_hdr_layout` / `c17_hdr_roundtrip`)
+fn cap_is(i: usize, want: &VirtioVsockHdr) -> bool {
+    if unsafe { CAP.len[i] != 44 || CAP.dir[i] != 0 } {
+        return false;
     }
-    ok
+    let got = VirtioVsockHdr::read_from_bytes(unsafe { &CAP.bytes[i][..44] }).unwrap();
+    got == *want
 }
 
-fn expect_hdr(ci: &ConnectionInfo, cid: u64, op: u16, len: u32) -> [u8; 44] {
-    spec_hdr_bytes(&VirtioVsockHdr {
+fn expect_hdr(ci: &ConnectionInfo, cid: u64, op: u16, len: u32) -> VirtioVsockHdr {
+    VirtioVsockHdr {
         src_cid: U64::new(cid),
         dst_cid: U64::new(ci.dst.cid),
         src_port: U32::new(ci.src_port),
@@ -398,7 +411,7 @@ fn expect_hdr(ci: &ConnectionInfo, cid: u64, op: u16, len: u32) -> [u8; 44] {
         flags: U32::new(0),
         buf_alloc: U32::new(ci.buf_alloc),
         fwd_cnt: U32::new(ci.fwd_cnt),
-    })
+    }
 }
 
 fn same_but_tx_and_pending(a: &ConnectionInfo, b: &ConnectionInfo) -> bool {
@@ -408,8 +421,10 @@ fn same_but_tx_and_pending(a: &ConnectionInfo, b: &ConnectionInfo) -> bool {
 
 /// `send` of PAY bytes on the real driver with symbolic credit state.  `nowrap`: restrict to the region the
 /// current code supports (counters have not wrapped, peer did not shrink its buffer below the bytes in flight).
-fn send_scenario(nowrap: bool) {
-    let (mut s, n0) = mk_socket();
+fn send_scenario(nowrap: bool, path: Option<bool>) {
+    let mut holder = TxOnly::new();
+    let s = holder.sock();
+    let n0 = unsafe { CAP.n };
     let mut ci = any_info();
     if nowrap {
         kani::assume(ci.tx_cnt >= ci.peer_fwd_cnt && ci.peer_buf_alloc >= ci.tx_cnt - ci.peer_fwd_cnt);
@@ -417,6 +432,9 @@ fn send_scenario(nowrap: bool) {
     }
     let before = ci.clone();
     let free = spec_peer_free(ci.peer_buf_alloc, ci.tx_cnt, ci.peer_fwd_cnt);
+    if let Some(enough) = path {
+        kani::assume((PAY as u32 <= free) == enough);
+    }
     let data: [u8; PAY] = kani::any();
     dev_precomplete_tx();
     let l0 = log_len();
@@ -445,15 +463,20 @@ fn send_scenario(nowrap: bool) {
             assert!(cap_is(n0, &expect_hdr(&before, s.guest_cid, 7, 0)), "C17: credit request header wrong");
         }
     }
-    core::mem::forget(s);
 }
 
-/// K<= bounded stand-in: queue size 8, payload 3 bytes, one send; credit state symbolic within the no-wrap region.
+/// K<= bounded stand-in: queue size 8, payload 3 bytes, one send on a driver with a real transmit queue; credit
+/// state symbolic within the no-wrap region, enough credit.
 #[kani::proof]
-#[kani::unwind(46)]
-fn k17_send_flow_nowrap() { send_scenario(true); }
+#[kani::unwind(10)]
+fn k17_send_ok_nowrap() { send_scenario(true, Some(true)); }
+
+/// K<= as above, insufficient credit (refusal, single credit request).
+#[kani::proof]
+#[kani::unwind(10)]
+fn k17_send_refused_nowrap() { send_scenario(true, Some(false)); }
 
 /// K<= same scenario over the FULL credit state (all 2^32 values of every counter): fails on a tree with D2.
 #[kani::proof]
-#[kani::unwind(46)]
-fn c17_d2_send_flow_anywrap() { send_scenario(false); }
+#[kani::unwind(10)]
+fn c17_d2_send_flow_anywrap() { send_scenario(false, None); }
